@@ -592,6 +592,72 @@ def inSyncB (p m : List File) : Bool :=
 /-- No URI listed twice. -/
 def noDupUris (l : List File) : Bool := l.all fun e => (entries l e.1).length == 1
 
+/-! ## Specification side: what the most recent event that concerns an entry says
+
+`lastTouch cls evs` scans the history from its end for the first event `cls` has something to say
+about.  The `…Says` classifiers read an event on its own – no store, no other field – so that "the
+view shows X" can be stated as `view = lastTouch …Says history` for arbitrary histories. -/
+
+def lastTouch {β} (cls : Ev → Option β) (evs : List Ev) : Option β := evs.reverse.findSome? cls
+
+/-- `last_exchange` of parent `p` of `ca`: a recorded attempt says "this exchange", a removal says
+"no entry". -/
+def Ev.parentExchangeSays (ca p : String) (e : Ev) : Option (Option Exchange) :=
+  match e.parentAttempt? with
+  | some (ca', p', x) => if ca' = ca ∧ p' = p then some (some x) else none
+  | none => if e.removesParent ca p then some none else none
+
+/-- `last_success` of parent `p` of `ca`: only a successful attempt or a removal says something. -/
+def Ev.parentSuccessSays (ca p : String) (e : Ev) : Option (Option Nat) :=
+  match e.parentAttempt? with
+  | some (ca', p', x) => if ca' = ca ∧ p' = p ∧ x.result = .success then some (some x.time) else none
+  | none => if e.removesParent ca p then some none else none
+
+/-- Entitlements shown for parent `p` of `ca`: only a successful list query or a removal says
+something. -/
+def Ev.entitlementsSay (ca p : String) (e : Ev) : Option Entitlements :=
+  match e with
+  | .parentList ca' p' _ _ (.ok ent) _ => if ca' = ca ∧ p' = p then some ent else none
+  | _ => if e.removesParent ca p then some [] else none
+
+def Ev.repoExchangeSays (ca : String) (e : Ev) : Option (Option Exchange) :=
+  match e.repoAttempt? with
+  | some (ca', x) => if ca' = ca then some (some x) else none
+  | none => if e.removesCa ca then some none else none
+
+def Ev.repoSuccessSays (ca : String) (e : Ev) : Option (Option Nat) :=
+  match e.repoAttempt? with
+  | some (ca', x) => if ca' = ca ∧ x.result = .success then some (some x.time) else none
+  | none => if e.removesCa ca then some none else none
+
+/-- `last_exchange` of child `c` of `ca`: a processed request or a removal. -/
+def Ev.childExchangeSays (ca c : String) (e : Ev) : Option (Option ChildExchange) :=
+  match e.childAttempt? with
+  | some (ca', c', x) => if ca' = ca ∧ c' = c then some (some x) else none
+  | none => if e.removesChild ca c then some none else none
+
+/-- The suspension marker of child `c` of `ca`: set by the inactivity check, cleared by a processed
+request (and gone with a removal). -/
+def Ev.suspendedSays (ca c : String) (e : Ev) : Option (Option Nat) :=
+  match e with
+  | .childSuspended ca' c' now => if ca' = ca ∧ c' = c then some (some now) else none
+  | .childRequest ca' c' _ _ _ => if ca' = ca ∧ c' = c then some none else none
+  | _ => if e.removesChild ca c then some none else none
+
+/-- Exactly the refusals that happen before `rfc6492_process_request` touches the status: a remote
+request of an unknown child or with a signature that does not validate against the registered
+identity (`verify_rfc6492`); a local request of an unknown child unless the parent is the trust
+anchor (`get_child` fails first). -/
+def refusedBeforeProcessing (remote parentIsTa known sigValid : Bool) : Bool :=
+  if remote then !(known && sigValid) else !(known || parentIsTa)
+
+/-! ### shadow list vs. server when the server may lose content -/
+
+/-- Everything the server holds is shown, with the same content (the shown list may hold more). -/
+def Covers (p m : List File) : Prop := ∀ u, entries m u ≠ [] → entries p u = entries m u
+
+def coversB (p m : List File) : Bool := m.all fun f => entries p f.1 == entries m f.1
+
 /-! ## The CA's status store next to the publication server (for `published = server content`) -/
 
 /-- The status store together with what the publication server holds for the same CA
